@@ -59,6 +59,10 @@ inductive Tok where
   | reformShort (v : Bytes) (s : String) (cal : Calendar)
   /-- `--reformation VALUE` as two arguments -/
   | reformLong (v : Bytes) (s : String) (cal : Calendar)
+  /-- `-rVALUE` (`eq = false`) or `-r=VALUE` (`eq = true`) as one argument -/
+  | reformAttached (eq : Bool) (v : Bytes) (s : String) (cal : Calendar)
+  /-- `--reformation=VALUE` as one argument -/
+  | reformLongEq (v : Bytes) (s : String) (cal : Calendar)
 
 def digitByte (k : Fin 10) : UInt8 := (48 + k.val).toUInt8
 
@@ -70,6 +74,9 @@ def Tok.encode : Tok → List Bytes
   | .long f => [f.long]
   | .reformShort v _ _ => [[45, 114], v]
   | .reformLong v _ _ => [[45, 45, 114, 101, 102, 111, 114, 109, 97, 116, 105, 111, 110], v]
+  | .reformAttached eq v _ _ => [45 :: 114 :: ((if eq then [61] else []) ++ v)]
+  | .reformLongEq v _ _ =>
+    [45 :: 45 :: 114 :: 101 :: 102 :: 111 :: 114 :: 109 :: 97 :: 116 :: 105 :: 111 :: 110 :: 61 :: v]
 
 /-- the side conditions: how the bytes decode, and what makes a positional argument one -/
 def Tok.Ok : Tok → Prop
@@ -79,12 +86,17 @@ def Tok.Ok : Tok → Prop
   | .long _ => True
   | .reformShort v s cal => bytesToString? v = some s ∧ parseReformation s = some cal
   | .reformLong v s cal => bytesToString? v = some s ∧ parseReformation s = some cal
+  | .reformAttached eq v s cal =>
+    (eq = false → v ≠ [] ∧ v.head? ≠ some 61) ∧ bytesToString? v = some s ∧ parseReformation s = some cal
+  | .reformLongEq v s cal => bytesToString? v = some s ∧ parseReformation s = some cal
 
 def Tok.apply (o : Options) : Tok → Options
   | .short f => f.apply o
   | .long f => f.apply o
   | .reformShort _ _ cal => { o with calendar := cal }
   | .reformLong _ _ cal => { o with calendar := cal }
+  | .reformAttached _ _ _ cal => { o with calendar := cal }
+  | .reformLongEq _ _ cal => { o with calendar := cal }
   | _ => o
 
 /-- the positional argument a token contributes -/
@@ -230,6 +242,56 @@ theorem step_neg (k : Fin 10) (rest : Bytes) (s : String)
      · simp [hopt, isAsciiDigit]
      · simp [hopt, isAsciiDigit, hne, hb])
 
+theorem step_reformAttached (eq : Bool) (v : Bytes) (s : String) (cal : Calendar)
+    (hne : eq = false → v ≠ [] ∧ v.head? ≠ some 61)
+    (hv : bytesToString? v = some s) (hc : parseReformation s = some cal)
+    (fuel : Nat) (p : Parser) (opts : Options) (args : List String)
+    (tail : List Bytes) (hq : Quiescent p)
+    (hs : p.source = (45 :: 114 :: ((if eq then [61] else []) ++ v)) :: tail) :
+    fromParser (fuel + 1) p opts args
+      = fromParser fuel ⟨.none, tail⟩ { opts with calendar := cal } args := by
+  have hfresh : Parser.nextFresh ⟨.none, (45 :: 114 :: ((if eq then [61] else []) ++ v)) :: tail⟩
+      = .arg (.short 'r') ⟨.shorts (45 :: 114 :: ((if eq then [61] else []) ++ v)) 2, tail⟩ := by
+    cases eq
+    · obtain ⟨h1, h2⟩ := hne rfl
+      cases v with
+      | nil => exact absurd rfl h1
+      | cons x xs => simp [Parser.nextFresh, dash]
+    · simp [Parser.nextFresh, dash]
+  have hval : (⟨.shorts (45 :: 114 :: ((if eq then [61] else []) ++ v)) 2, tail⟩ : Parser).value
+      = some (v, ⟨.none, tail⟩) := by
+    cases eq
+    · obtain ⟨h1, h2⟩ := hne rfl
+      cases v with
+      | nil => exact absurd rfl h1
+      | cons x xs =>
+        have hx : (x == 61) = false := by
+          simp only [List.head?_cons, ne_eq, Option.some.injEq] at h2
+          simp [h2]
+        simp [Parser.value, Parser.optionalValue, hx]
+    · simp [Parser.value, Parser.optionalValue]
+  simp only [fromParser, hq.next, hs, hfresh, hval, hv, hc]
+  simp
+
+theorem step_reformLongEq (v : Bytes) (s : String) (cal : Calendar)
+    (hv : bytesToString? v = some s) (hc : parseReformation s = some cal)
+    (fuel : Nat) (p : Parser) (opts : Options) (args : List String)
+    (tail : List Bytes) (hq : Quiescent p)
+    (hs : p.source = (45 :: 45 :: 114 :: 101 :: 102 :: 111 :: 114 :: 109 :: 97 :: 116 :: 105 :: 111 :: 110 :: 61 :: v) :: tail) :
+    fromParser (fuel + 1) p opts args
+      = fromParser fuel ⟨.none, tail⟩ { opts with calendar := cal } args := by
+  have hfresh : Parser.nextFresh ⟨.none, (45 :: 45 :: 114 :: 101 :: 102 :: 111 :: 114 :: 109 :: 97 :: 116 :: 105 :: 111 :: 110 :: 61 :: v) :: tail⟩
+      = .arg (.long [114, 101, 102, 111, 114, 109, 97, 116, 105, 111, 110]) ⟨.pendingValue v, tail⟩ := by
+    have hi : List.idxOf? (61 : UInt8) (45 :: 45 :: 114 :: 101 :: 102 :: 111 :: 114 :: 109 :: 97 :: 116 :: 105 :: 111 :: 110 :: 61 :: v) = some 13 := by
+      simp [List.idxOf?, List.findIdx?_cons]
+    simp [Parser.nextFresh, dash, eqSign, hi]
+  have hval : (⟨.pendingValue v, tail⟩ : Parser).value = some (v, ⟨.none, tail⟩) := by
+    simp [Parser.value, Parser.optionalValue]
+  simp only [fromParser, hq.next, hs, hfresh, hval, hv, hc,
+      name_countries, name_help, name_version, name_julian, name_json, name_ordinal, name_quiet,
+      name_style, name_reformation]
+  simp
+
 /-- one token, one step of `from_parser` -/
 theorem step (t : Tok) (ht : t.Ok) (fuel : Nat) (p : Parser) (opts : Options) (args : List String)
     (tail : List Bytes) (hq : Quiescent p) (hs : p.source = t.encode ++ tail) :
@@ -249,6 +311,11 @@ theorem step (t : Tok) (ht : t.Ok) (fuel : Nat) (p : Parser) (opts : Options) (a
     exact ⟨_, quiescent_none tail, rfl, step_reformShort v s cal ht.1 ht.2 fuel p opts args tail hq hs⟩
   | reformLong v s cal =>
     exact ⟨_, quiescent_none tail, rfl, step_reformLong v s cal ht.1 ht.2 fuel p opts args tail hq hs⟩
+  | reformAttached eq v s cal =>
+    exact ⟨_, quiescent_none tail, rfl,
+      step_reformAttached eq v s cal ht.1 ht.2.1 ht.2.2 fuel p opts args tail hq hs⟩
+  | reformLongEq v s cal =>
+    exact ⟨_, quiescent_none tail, rfl, step_reformLongEq v s cal ht.1 ht.2 fuel p opts args tail hq hs⟩
 
 /-- a run of tokens, then whatever follows -/
 theorem fromParser_prefix (toks : List Tok) (hok : ∀ t ∈ toks, t.Ok) :
@@ -345,6 +412,56 @@ theorem early_exit (toks : List Tok) (hok : ∀ t ∈ toks, t.Ok) (post : List B
       name_countries, name_help, name_version, name_julian, name_json, name_ordinal, name_quiet,
       name_style, name_reformation] <;>
     simp [hi1, hi2, hi3]
+
+/-- after `--` every raw argument is positional -/
+theorem finished_run : ∀ (vals : List (Bytes × String)) (hv : ∀ v ∈ vals, bytesToString? v.1 = some v.2)
+    (fuel : Nat) (opts : Options) (args : List String),
+    fromParser (fuel + vals.length + 1) ⟨.finishedOpts, vals.map (·.1)⟩ opts args
+      = .run opts (args.reverse ++ vals.map (·.2)) := by
+  intro vals
+  induction vals with
+  | nil =>
+    intro _ fuel opts args
+    simp [fromParser, Parser.next]
+  | cons v vs ih =>
+    intro hv fuel opts args
+    have h1 := hv v (List.mem_cons_self ..)
+    have hl : fuel + (v :: vs).length + 1 = (fuel + vs.length + 1) + 1 := by simp; omega
+    rw [hl, fromParser]
+    simp only [Parser.next, List.map_cons, h1]
+    rw [ih (fun x hx => hv x (List.mem_cons_of_mem _ hx))]
+    simp
+
+
+/-- **`--` ends option parsing**: everything after it is positional, whatever it looks like -/
+theorem parse_spec_dashdash (toks : List Tok) (hok : ∀ t ∈ toks, t.Ok)
+    (vals : List (Bytes × String)) (hv : ∀ v ∈ vals, bytesToString? v.1 = some v.2) :
+    parseCommand (toks.flatMap Tok.encode ++ [45, 45] :: vals.map (·.1))
+      = .run (toks.foldl Tok.apply {}) (toks.filterMap Tok.arg ++ vals.map (·.2)) := by
+  have hle := toks_le_argv toks
+  have hfuel := fuelFor_ge (toks.flatMap Tok.encode ++ [45, 45] :: vals.map (·.1))
+  simp only [List.length_append, List.length_cons, List.length_map] at hfuel
+  obtain ⟨f, hf⟩ : ∃ f, fuelFor (toks.flatMap Tok.encode ++ [45, 45] :: vals.map (·.1))
+      = ((f + vals.length + 1) + 1) + toks.length :=
+    ⟨fuelFor (toks.flatMap Tok.encode ++ [45, 45] :: vals.map (·.1)) - toks.length - vals.length - 2, by omega⟩
+  obtain ⟨p', hq', hs', h⟩ := fromParser_prefix toks hok ((f + vals.length + 1) + 1)
+    ⟨.none, toks.flatMap Tok.encode ++ [45, 45] :: vals.map (·.1)⟩ {} [] ([45, 45] :: vals.map (·.1))
+    (quiescent_none _) rfl
+  simp only [parseCommand]
+  rw [hf, h]
+  cases vals with
+  | nil =>
+    simp [fromParser, hq'.next, hs', Parser.nextFresh, dash]
+  | cons v vs =>
+    have h1 := hv v (List.mem_cons_self ..)
+    rw [fromParser]
+    simp only [hq'.next, hs', Parser.nextFresh, dash, List.map_cons]
+    have hl : f + (v :: vs).length + 1 = (f + 1) + vs.length + 1 := by simp; omega
+    simp only [beq_self_eq_true, if_true]
+    rw [h1]
+    simp only []
+    rw [hl, finished_run vs (fun x hx => hv x (List.mem_cons_of_mem _ hx))]
+    simp
 
 end Cli
 end JV
